@@ -28,6 +28,8 @@ def add_rename_target(eng):
     from pyvc.engine import Target
     CONV = "onnx_ir._convenience"
     fields = ["Value._name", "Value._graph", "Value._is_initializer", "Value._const_value", "Node._name"]
+    # (a check that declares a smaller abstract Value/Node, like C15, states the frame over the fields it has)
+    fields = [f for f in fields if f.split(".")[0] in eng.classes and f.split(".")[1] in eng.classes[f.split(".")[0]].fields]
     unchanged = "unchanged(%s)" % ", ".join(repr(f) for f in fields)
 
     from pyvc.core import Exc, FnDecl
